@@ -1,6 +1,6 @@
 (* Properties_C18.v — C18: the remaining table queries never fault on a loaded
    object, for any table bytes and any index. *)
-From ElfioV Require Import Bytes Mem Stream SectionData Strings Elfio Table Accessors Loader Load_proofs Safety_proofs Hash_proofs.
+From ElfioV Require Import Bytes Mem Stream SectionData Strings Elfio Table Accessors Loader Load_proofs Safety_proofs Hash_proofs Arrange_total.
 Local Open Scope N_scope.
 
 (* [loaded_ok content k el] is what load() establishes for every byte string
@@ -84,6 +84,15 @@ Theorem C18_gnu_hash_lookup :
     exists el1 r, gnu_hash_lookup junk el symsec hashsec name = Ok (el1, r) /\ loaded_ok content k el1 /\ same_shape el el1.
 Proof. exact gnu_hash_lookup_total. Qed.
 Print Assumptions C18_gnu_hash_lookup.
+
+(* rearranging local symbols: any table bytes, entries of the symbol record's size *)
+Theorem C18_arrange_local_symbols :
+  forall junk content k el symsec s0,
+    loaded_ok content k el -> get_sec el symsec = Some s0 ->
+    sh_entsize s0 = layout_sz (sym_layout (acls el)) -> sh_size s0 < 2 ^ 64 ->
+    exists el1 r log, arrange_local_symbols junk el symsec = Ok (el1, r, log).
+Proof. exact arrange_local_symbols_total. Qed.
+Print Assumptions C18_arrange_local_symbols.
 
 (* the core table reads under the buffer invariant alone (any header values) *)
 Theorem C18_core_reads :
